@@ -50,6 +50,9 @@ def _data(rng, N, kind):
         return th
     if kind == "int":
         return rng.integers(-3, 9, N)
+    if kind == "f32rates":  # rates k/n computed in single precision (a float32 pipeline); the estimate comes in double precision
+        n_ = int(rng.choice([30, 7, 100, 12]))
+        return (rng.binomial(n_, float(rng.uniform(0.1, 0.9)), N) / n_).astype(np.float32)
     if kind == "narrowint":  # replicates of an integer-valued metric in a narrow type (a quantised score, a count in uint16): differences leave the type's range
         dt = [np.uint8, np.int8, np.uint16, np.int16][int(rng.integers(0, 4))]
         ii = np.iinfo(dt)
@@ -60,7 +63,7 @@ def _data(rng, N, kind):
 
 def cases(ctx):
     rng = ctx.rng
-    kinds = ["gauss", "const", "lattice", "skew", "outlier", "nan", "int", "dyadic", "narrowint"]
+    kinds = ["gauss", "const", "lattice", "skew", "outlier", "nan", "int", "dyadic", "narrowint", "f32rates"]
     for i in range(ctx.n(1200, 6000)):
         N = int(rng.choice([1, 2, 3, 5, 10, 50, 200, 500], p=[.1, .1, .1, .15, .2, .2, .1, .05]))
         kind = str(rng.choice(kinds))
@@ -69,12 +72,15 @@ def cases(ctx):
         that = float(rng.choice([float(np.median(fin)), fin.mean(), fin.min() - 1, fin.max() + 1, float(rng.choice(fin)), float(rng.normal())]))
         if kind in ("int", "dyadic", "lattice"):
             that = float(np.round(that * 1024) / 1024)
+        if kind == "f32rates":  # an estimate k/n in double precision: next to (not on) the single-precision replicates equal to it in exact arithmetic
+            n_ = int(rng.choice([30, 7, 100, 12]))
+            that = float(int(rng.integers(0, n_ + 1)) / n_) if rng.random() < 0.7 else float(np.float64(rng.choice(th)))
         if kind == "narrowint":  # the estimate of such a metric is a value of the same type
             that = th.dtype.type(int(np.clip(round(that), np.iinfo(th.dtype).min, np.iinfo(th.dtype).max)))
         if kind == "int" and rng.random() < 0.6:
             that = int(round(that))  # integer estimate with integer replicates (an integer-valued metric)
         alpha = float(rng.choice([0.05, 0.1, 0.5, 0.01, 0.9, float(rng.uniform(0.001, 0.999))]))
-        if kind not in ("int", "narrowint") and rng.random() < 0.3:  # replicates of another magnitude (small rates, large counts): exact power-of-two scaling
+        if kind not in ("int", "narrowint", "f32rates") and rng.random() < 0.3:  # replicates of another magnitude (small rates, large counts): exact power-of-two scaling
             c = 2.0 ** int(rng.integers(-45, 46))
             th, that, kind = th * c, that * c, kind + "*2^k"
         if i % 40 == 7:
@@ -134,6 +140,8 @@ def execute(ctx, case):
     lo_f, hi_f = float(fin.min()), float(fin.max())
     scale = float(np.abs(fin).max()) or 1.0  # relative to the replicates' own magnitude
     tol = 1e-9 * scale + 4e-14 * len(th) * (hi_f - lo_f)
+    if th.dtype.kind == "f" and th.dtype.itemsize < 8:
+        tol += 512 * float(np.finfo(th.dtype).eps) * max(hi_f - lo_f, scale)  # terms formed in the replicates' own (single) precision
     sess.observe("R-bci")
     # documented defaults: alpha=0.05, method="quantile" (which needs no point estimate); leaving them out must mean exactly that
     d_all = bootstrap_ci(th, that, 0.05, method="quantile")
